@@ -50,16 +50,14 @@ const Cap32 = uint64(1<<32 - 1)
 const Cap64 = ^uint64(0)
 
 // Rep32 / Rep64: the value a saturating counter of that width must report.
-func (a N) Rep32() uint64 {
-	if a.Inf || a.V >= Cap32 {
-		return Cap32
-	}
-	return a.V
-}
+func (a N) Rep32() uint64 { return a.Rep(Cap32) }
 
-func (a N) Rep64() uint64 {
-	if a.Inf {
-		return Cap64
+func (a N) Rep64() uint64 { return a.Rep(Cap64) }
+
+// Rep: the value a saturating counter of capacity cap must report.
+func (a N) Rep(cap uint64) uint64 {
+	if a.Inf || a.V >= cap {
+		return cap
 	}
 	return a.V
 }
@@ -96,6 +94,7 @@ var MetricNames = [...]string{"max_commit_size", "max_parent_count", "max_tree_e
 func (m Metric) Is64() bool { return m == MaxExpBlobSize }
 
 type Result struct {
+	clamp uint64
 	Reach map[mrepo.ID]bool
 	// census
 	Commits, Trees, Blobs, Tags            N
@@ -108,8 +107,13 @@ type Result struct {
 }
 
 // Compute evaluates everything for the objects reachable from roots.
-func Compute(r *mrepo.Repo, roots []mrepo.ID) *Result {
-	res := &Result{Reach: map[mrepo.ID]bool{}, Depth: map[mrepo.ID]N{}, TagDepth: map[mrepo.ID]N{}, Exp: map[mrepo.ID]Expansion{}}
+func Compute(r *mrepo.Repo, roots []mrepo.ID) *Result { return ComputeOpt(r, roots, 0) }
+
+// ComputeOpt with clampSize > 0 is NOT the specification: it is the defect
+// model "every object size is clamped to clampSize before it is added to any
+// total", used only to recognise one known finding precisely.
+func ComputeOpt(r *mrepo.Repo, roots []mrepo.ID, clampSize uint64) *Result {
+	res := &Result{clamp: clampSize, Reach: map[mrepo.ID]bool{}, Depth: map[mrepo.ID]N{}, TagDepth: map[mrepo.ID]N{}, Exp: map[mrepo.ID]Expansion{}}
 	for i := range res.Witness {
 		res.Witness[i] = map[mrepo.ID]bool{}
 	}
@@ -162,11 +166,11 @@ func Compute(r *mrepo.Repo, roots []mrepo.ID) *Result {
 		switch o.Kind {
 		case mrepo.Blob:
 			res.Blobs = res.Blobs.Add(one)
-			res.BlobBytes = res.BlobBytes.Add(Nat(o.Size))
-			consider(MaxBlobSize, id, Nat(o.Size))
+			res.BlobBytes = res.BlobBytes.Add(Nat(res.sz(o.Size)))
+			consider(MaxBlobSize, id, Nat(res.sz(o.Size)))
 		case mrepo.Tree:
 			res.Trees = res.Trees.Add(one)
-			res.TreeBytes = res.TreeBytes.Add(Nat(o.Size))
+			res.TreeBytes = res.TreeBytes.Add(Nat(res.sz(o.Size)))
 			res.TreeEntries = res.TreeEntries.Add(Nat(uint64(len(o.Entries))))
 			consider(MaxTreeEntries, id, Nat(uint64(len(o.Entries))))
 			e := res.expand(r, id)
@@ -179,8 +183,8 @@ func Compute(r *mrepo.Repo, roots []mrepo.ID) *Result {
 			consider(MaxExpSubs, id, e.Subs)
 		case mrepo.Commit:
 			res.Commits = res.Commits.Add(one)
-			res.CommitBytes = res.CommitBytes.Add(Nat(o.Size))
-			consider(MaxCommitSize, id, Nat(o.Size))
+			res.CommitBytes = res.CommitBytes.Add(Nat(res.sz(o.Size)))
+			consider(MaxCommitSize, id, Nat(res.sz(o.Size)))
 			consider(MaxParents, id, Nat(uint64(len(o.Parents))))
 			consider(MaxHistoryDepth, id, res.depth(r, id))
 		case mrepo.Tag:
@@ -192,6 +196,13 @@ func Compute(r *mrepo.Repo, roots []mrepo.ID) *Result {
 	// exist; git-sizer cites nobody for a zero (its running max starts at 0 and
 	// is updated only by strictly greater values, except for the commit metrics).
 	return res
+}
+
+func (res *Result) sz(v uint64) uint64 {
+	if res.clamp > 0 && v > res.clamp {
+		return res.clamp
+	}
+	return v
 }
 
 func (res *Result) depth(r *mrepo.Repo, id mrepo.ID) N {
@@ -273,7 +284,7 @@ func (res *Result) expand(r *mrepo.Repo, id mrepo.ID) Expansion {
 		default:
 			e.Files = e.Files.Add(Nat(1))
 			if b, ok := r.Objects[en.Child]; ok {
-				e.Bytes = e.Bytes.Add(Nat(b.Size))
+				e.Bytes = e.Bytes.Add(Nat(res.sz(b.Size)))
 			}
 			e.Depth = Max(e.Depth, Nat(1))
 			e.Length = Max(e.Length, nameLen)
@@ -288,22 +299,26 @@ func (res *Result) expand(r *mrepo.Repo, id mrepo.ID) Expansion {
 // documented capacity).
 type Numbers map[string]uint64
 
-func (res *Result) Numbers() Numbers {
+func (res *Result) Numbers() Numbers { return res.NumbersCapped(Cap32, Cap64) }
+
+// NumbersCapped is Numbers for counters of the given capacities (the
+// width-narrowed builds use 2^8-1 and 2^16-1).
+func (res *Result) NumbersCapped(cap32, cap64 uint64) Numbers {
 	n := Numbers{
-		"unique_commit_count": res.Commits.Rep32(),
-		"unique_commit_size":  res.CommitBytes.Rep64(),
-		"unique_tree_count":   res.Trees.Rep32(),
-		"unique_tree_size":    res.TreeBytes.Rep64(),
-		"unique_tree_entries": res.TreeEntries.Rep64(),
-		"unique_blob_count":   res.Blobs.Rep32(),
-		"unique_blob_size":    res.BlobBytes.Rep64(),
-		"unique_tag_count":    res.Tags.Rep32(),
+		"unique_commit_count": res.Commits.Rep(cap32),
+		"unique_commit_size":  res.CommitBytes.Rep(cap64),
+		"unique_tree_count":   res.Trees.Rep(cap32),
+		"unique_tree_size":    res.TreeBytes.Rep(cap64),
+		"unique_tree_entries": res.TreeEntries.Rep(cap64),
+		"unique_blob_count":   res.Blobs.Rep(cap32),
+		"unique_blob_size":    res.BlobBytes.Rep(cap64),
+		"unique_tag_count":    res.Tags.Rep(cap32),
 	}
 	for m := Metric(0); m < NMetrics; m++ {
 		if m.Is64() {
-			n[MetricNames[m]] = res.Max[m].Rep64()
+			n[MetricNames[m]] = res.Max[m].Rep(cap64)
 		} else {
-			n[MetricNames[m]] = res.Max[m].Rep32()
+			n[MetricNames[m]] = res.Max[m].Rep(cap32)
 		}
 	}
 	return n
